@@ -174,9 +174,14 @@ class Session(object):
     def rebind_clock(self):
         bind_time(self.clock, self.module)
 
+    loop_per_call = False       # async: every public call runs in an event loop of its own, as with one asyncio.run() per call
+
     def raw(self, api, *a, **kw):
         """Run the API to completion and return its value (generators are drained into lists)."""
         self.rebind_clock()
+        if self.loop_per_call and self.loop is not None:
+            self.close_loop()
+            self.loop = asyncio.new_event_loop()
         f = getattr(self.device, api)
         if self.mode == 'sync':
             r = f(*a, **kw)
